@@ -871,3 +871,515 @@ def gen_C04(rng, tier, cfg):
 
 
 GENS.update({"C01": gen_C01, "C04": gen_C04})
+# --------------------------------------------------------------------------- ppv-lite86 SIMD layer (C12, C13, C03)
+
+SIMD_TYPES = {"u32x4": (128, 32, 4), "u64x2": (128, 64, 2), "u128x1": (128, 128, 1),
+              "u32x4x2": (256, 128, 2), "u64x2x2": (256, 128, 2), "u64x4": (256, 64, 4), "u128x2": (256, 128, 2),
+              "u32x4x4": (512, 128, 4), "u64x2x4": (512, 128, 4), "u128x4": (512, 128, 4)}
+X86_BACKENDS = ["sse2", "ssse3", "sse41", "avx", "avx2"]
+_BIT0 = ["xor", "and", "or", "andnot", "not"]
+_ROT32 = ["rotr%d" % k for k in (7, 8, 11, 12, 16, 20, 24, 25)]
+_ROT64 = _ROT32 + ["rotr32"]
+_ARITH = ["add", "bswap"]
+_VEC = ["extract", "insert"]
+_LANES = ["to_lanes", "from_lanes"]
+_BYTES = ["read_le", "read_be", "write_le", "write_be"]
+_W4 = ["shuffle1230", "shuffle2301", "shuffle3012"]
+_LW4 = ["shuffle_lane_words1230", "shuffle_lane_words2301", "shuffle_lane_words3012"]
+_SWAP = ["swap%d" % k for k in (1, 2, 4, 8, 16, 32, 64)]
+# mirrors CC.Simd.required (trait bounds of types.rs)
+SIMD_REQUIRED = {
+    "u32x4": _BIT0 + _ROT32 + _ARITH + _VEC + _W4 + _LW4 + _BYTES + _LANES,
+    "u64x2": _BIT0 + _ROT64 + _ARITH + _VEC + _LANES,
+    "u128x1": _BIT0 + _ROT64 + _SWAP + _LANES,
+    "u32x4x2": _BIT0 + _ROT32 + _VEC + _LANES + _ARITH + _BYTES,
+    "u64x2x2": _BIT0 + _ROT64 + _VEC + _LANES + _ARITH + _BYTES,
+    "u64x4": _BIT0 + _ROT64 + _VEC + _LANES + _ARITH + _W4 + _BYTES,
+    "u128x2": _BIT0 + _ROT64 + _VEC + _LANES + _SWAP,
+    "u32x4x4": _BIT0 + _ROT32 + _VEC + ["transpose4", "to_scalars"] + _LANES + _ARITH + _LW4 + _BYTES,
+    "u64x2x4": _BIT0 + _ROT64 + _VEC + _LANES + _ARITH,
+    "u128x4": _BIT0 + _ROT64 + _VEC + _LANES + _SWAP,
+}
+ALL_SIMD_OPS = _BIT0 + _ROT64 + _ARITH + _VEC + _LANES + _BYTES + _W4 + _LW4 + _SWAP + ["transpose4", "to_scalars"]
+MOVE_OPS = set(_VEC + _LANES + _BYTES + ["transpose4", "to_scalars"])
+
+
+def simd_extras(b, t):
+    """mirrors CC.Simd.extras"""
+    if t in ("u64x2", "u64x2x4"):
+        return list(_BYTES)
+    if t == "u32x4x2":
+        return list(_LW4)
+    if t in ("u128x1", "u128x2", "u128x4"):
+        return ["bswap"] + (["add"] if b == "generic" else list(_BYTES))
+    return []
+
+
+def simd_provided(b, t):
+    return SIMD_REQUIRED[t] + simd_extras(b, t)
+
+
+def simd_backends(cfg):
+    return ["generic"] if cfg.startswith("nosimd") else list(X86_BACKENDS)
+
+
+def simd_operand(rng, nbytes, k):
+    """operand catalogue: k selects the shape; k >= 8 is random"""
+    if k == 0:
+        return bytes(range(nbytes))                    # byte-counting: every reordering is visible
+    if k == 1:
+        return bytes(nbytes)
+    if k == 2:
+        return b"\xff" * nbytes
+    if k == 3:
+        b = bytearray(nbytes)
+        bit = rng.below(8 * nbytes)
+        b[bit // 8] = 1 << (bit % 8)
+        return bytes(b)
+    if k == 4:                                         # carry patterns: words of all ones among random
+        b = bytearray(rng.bytes(nbytes))
+        for w in range(nbytes // 4):
+            if rng.below(2):
+                b[4 * w:4 * w + 4] = b"\xff\xff\xff\xff"
+        return bytes(b)
+    if k == 5:
+        return bytes((0x80 + i) & 0xff for i in range(nbytes))   # counting with the high bit set
+    if k == 6:
+        return bytes((0xf0 - 3 * i) & 0xff for i in range(nbytes))
+    if k == 7:                                         # 0x00000001 words (carry in from the neighbour)
+        b = bytearray(nbytes)
+        for w in range(nbytes // 4):
+            b[4 * w] = 1
+        return bytes(b)
+    return rng.bytes(nbytes)
+
+
+def simd_op_lines(rng, b, t, op, n):
+    """n protocol lines for one (backend, type, op) triple"""
+    bits, ebits, cnt = SIMD_TYPES[t]
+    nb, eb = bits // 8, ebits // 8
+    pre = "simd %s %s %s" % (b, t, op)
+    out = []
+    for j in range(n):
+        k = j if j < 8 else 8
+        x = simd_operand(rng, nb, k)
+        if op in ("add", "xor", "and", "or", "andnot"):
+            y = simd_operand(rng, nb, (j * 5 + 2) % 11)
+            if j == 2:
+                y = bytes([1] + [0] * (nb - 1))        # all-ones + 1: the carry must stop at the word boundary
+            out.append("%s %s %s" % (pre, x.hex(), y.hex()))
+        elif op == "extract":
+            out.append("%s %s %d" % (pre, x.hex(), j % cnt))
+        elif op == "insert":
+            w = simd_operand(rng, eb, (j * 3 + 1) % 11)
+            if j < 2:
+                w = bytes((0xa0 + i) & 0xff for i in range(eb))
+            out.append("%s %s %s %d" % (pre, x.hex(), w.hex(), (j // 2) % cnt if j < 2 * cnt else rng.below(cnt)))
+        elif op == "from_lanes":
+            out.append(pre + " " + " ".join(x[i * eb:(i + 1) * eb].hex() for i in range(cnt)))
+        elif op == "transpose4":
+            xs = [x] + [simd_operand(rng, nb, 8 if j else 5 + i) for i in range(3)]
+            if j == 0:
+                xs = [bytes((64 * i + q) & 0xff for q in range(64)) for i in range(4)]
+            out.append(pre + " " + " ".join(v.hex() for v in xs))
+        else:
+            out.append("%s %s" % (pre, x.hex()))
+    if op in ("extract", "insert"):                    # out-of-range index: every backend panics
+        x = simd_operand(rng, nb, 0)
+        if op == "extract":
+            out.append("%s %s %d" % (pre, x.hex(), cnt))
+        else:
+            out.append("%s %s %s %d" % (pre, x.hex(), bytes(eb).hex(), cnt))
+    if op in ("read_le", "read_be"):                   # wrong length: assert / unwrap panics
+        out.append("%s %s" % (pre, bytes(range(nb - 1)).hex()))
+    return out
+
+
+INTRIN_SIGS = {
+    # name: operand kinds (v=128, w=256, q=64, d=32, b=8, i8=imm 0..255, i1, i2)
+    "_mm_add_epi32": "vv", "_mm_add_epi64": "vv", "_mm_and_si128": "vv", "_mm_or_si128": "vv",
+    "_mm_xor_si128": "vv", "_mm_andnot_si128": "vv", "_mm_shuffle_epi8": "vv", "_mm_unpacklo_epi8": "vv",
+    "_mm_unpackhi_epi8": "vv", "_mm_packus_epi16": "vv",
+    "_mm_srli_epi16": "vI", "_mm_slli_epi16": "vI", "_mm_srli_epi32": "vI", "_mm_slli_epi32": "vI",
+    "_mm_srli_epi64": "vI", "_mm_slli_epi64": "vI", "_mm_srli_si128": "vI", "_mm_slli_si128": "vI",
+    "_mm_shuffle_epi32": "vI", "_mm_shufflelo_epi16": "vI", "_mm_shufflehi_epi16": "vI",
+    "_mm_alignr_epi8": "vvI", "_mm_set_epi64x": "qq", "_mm_set_epi32": "dddd", "_mm_set1_epi8": "b",
+    "_mm_set1_epi64x": "q", "_mm_setzero_si128": "", "_mm_cvtsi64_si128": "q", "_mm_cvtsi128_si64": "v",
+    "_mm_cvtsi32_si128": "d", "_mm_extract_epi64": "v1", "_mm_insert_epi64": "vq1", "_mm_insert_epi32": "vd2",
+    "_mm_move_epi64": "v", "_mm_loadu_si128": "v", "_mm_storeu_si128": "v",
+    "_mm256_add_epi32": "ww", "_mm256_and_si256": "ww", "_mm256_or_si256": "ww", "_mm256_xor_si256": "ww",
+    "_mm256_andnot_si256": "ww", "_mm256_shuffle_epi8": "ww", "_mm256_srli_epi32": "wI", "_mm256_slli_epi32": "wI",
+    "_mm256_shuffle_epi32": "wI", "_mm256_permute2x128_si256": "wwI", "_mm256_extracti128_si256": "w1",
+    "_mm256_inserti128_si256": "wv1", "_mm256_setr_m128i": "vv", "_mm256_set1_epi8": "b", "_mm256_set_epi64x": "qqqq",
+    "_mm256_loadu_si256": "w", "_mm256_storeu_si256": "w",
+}
+# immediates the repository uses (always generated), the rest of 0..255 sampled / enumerated
+REPO_IMMS = [0, 1, 2, 4, 7, 8, 11, 12, 16, 20, 24, 25, 32, 0x1b, 0x20, 0x31, 0x39, 0x4e, 0x78, 0x93, 0xb1, 0xb4, 0xc9, 0xe1, 0xee,
+             64 - 7, 64 - 8, 64 - 11, 64 - 12, 64 - 16, 64 - 20, 64 - 24, 64 - 25]
+
+
+def intrin_lines(rng, tier):
+    out = []
+    n = 12 if tier == "quick" else 200
+    size = {"v": 16, "w": 32, "q": 8, "d": 4, "b": 1}
+    for name, sig in INTRIN_SIGS.items():
+        imms = [None]
+        if "I" in sig:
+            imms = list(range(256)) if tier != "quick" else sorted(set(REPO_IMMS + [rng.below(256) for _ in range(24)] + [15, 31, 63, 65, 128, 255]))
+        elif "1" in sig:
+            imms = [0, 1]
+        elif "2" in sig:
+            imms = [0, 1, 2, 3]
+        reps = n if imms == [None] else max(2, n // 4)
+        for im in imms:
+            for j in range(reps):
+                toks = ["intrin", name]
+                for c in sig:
+                    if c in size:
+                        k = j if j < 8 else 8
+                        if name in ("_mm_shuffle_epi8", "_mm256_shuffle_epi8") and len(toks) == 3 and j % 2 == 1:
+                            k = 8                      # random control bytes incl. the high-bit rule
+                        toks.append(simd_operand(rng, size[c], (k + len(toks)) % 9 if j else 0).hex())
+                    else:
+                        toks.append(str(im))
+                out.append(" ".join(toks))
+    return out
+
+
+def _gen_simd(rng, tier, cfg, select, with_intrin):
+    n = 30 if tier == "quick" else 1000
+    ops = []
+    stats = {"backends": simd_backends(cfg), "triples": 0, "operands_per_triple": n, "by_op": {}, "intrin_ops": 0}
+    for b in stats["backends"]:
+        for t in SIMD_TYPES:
+            prov = simd_provided(b, t)
+            for op in ALL_SIMD_OPS:
+                if not select(op):
+                    continue
+                if op in prov:
+                    ls = simd_op_lines(rng, b, t, op, n)
+                    stats["triples"] += 1
+                    stats["by_op"][op] = stats["by_op"].get(op, 0) + len(ls)
+                    ops += ls
+                else:
+                    # not provided: both sides must say `unsupported`
+                    ops += simd_op_lines(rng, b, t, op, 1)[:1]
+    if with_intrin and not cfg.startswith("nosimd"):
+        ls = intrin_lines(rng, tier)
+        stats["intrin_ops"] = len(ls)
+        ops += ls
+    return ops, stats
+
+
+def gen_C12(rng, tier, cfg):
+    """word-wise operations (+ the intrinsics themselves)"""
+    return _gen_simd(rng, tier, cfg, lambda op: op not in MOVE_OPS, True)
+
+
+def gen_C13(rng, tier, cfg):
+    """data movement: lanes, insert/extract, transpose, scalars, byte I/O"""
+    return _gen_simd(rng, tier, cfg, lambda op: op in MOVE_OPS, False)
+
+
+def gen_C03(rng, tier, cfg):
+    """backend half of C03: the same operand through every available backend (one model answer
+    each), then the ChaCha stream / block API under every `cfg backend`."""
+    n = 6 if tier == "quick" else 100
+    bes = simd_backends(cfg)
+    ops = []
+    stats = {"backends": bes, "simd_ops": 0, "chacha_ops": 0}
+    for t in SIMD_TYPES:
+        for op in ALL_SIMD_OPS:
+            if op not in simd_provided(bes[0], t):
+                continue
+            sub = XorShift(rng.next())
+            lines = simd_op_lines(sub, "@", t, op, n)
+            for l in lines:
+                for b in bes:
+                    if op in simd_provided(b, t):
+                        ops.append(l.replace("simd @", "simd " + b, 1))
+                        stats["simd_ops"] += 1
+    slot = 0
+    cbes = ["generic"] if cfg.startswith("nosimd") else ["sse2", "ssse3", "sse41", "avx", "avx2"]
+    nk = 1 if tier == "quick" else 4
+    for v in VARIANTS:
+        for _ in range(nk):
+            key = struct_bytes(rng, 32)
+            nonce = struct_bytes(rng, NONCE[v])
+            plan = []
+            for p in [0, 64 * 3 + 5, rng.below(2**20), (2**32 - 2) * 64 + 9]:
+                if p + 600 < limit(v):
+                    plan.append((p, rng.choice([64, 255, 256, 257, 512, 577]), rng.below(1000)))
+            for be in cbes:
+                ops.append("cfg backend %s" % be)
+                ops.append("chacha new %d %s %s %s" % (slot, v, hx(key), hx(nonce)))
+                for (p, ln, sd) in plan:
+                    ops.append("chacha seek %d u64 %d" % (slot, p))
+                    ops.append("chacha applypat %d %d %d" % (slot, ln, sd))
+                    stats["chacha_ops"] += 2
+    # block API (refill / refill4) per backend
+    for _ in range(2 if tier == "quick" else 20):
+        key = struct_bytes(rng, 32)
+        nonce = struct_bytes(rng, 12)
+        for be in cbes:
+            ops.append("cfg backend %s" % be)
+            ops.append("guts new 0 %s %s" % (hx(key), hx(nonce)))
+            for dr in (4, 6, 10):
+                ops.append("guts refill 0 %d" % dr)
+                ops.append("guts refill4 0 %d" % dr)
+                stats["chacha_ops"] += 2
+    return ops, stats
+
+
+GENS.update({"C01": gen_C01, "C12": gen_C12, "C13": gen_C13, "C03": gen_C03})
+
+
+# --------------------------------------------------------------------------- C06 (JH) + JH part of C17
+
+JH_SIZES = [224, 256, 384, 512]
+JH_LENS_QUICK = [0, 1, 2, 55, 56, 57, 63, 64, 65, 111, 112, 119, 120, 121, 127, 128, 129,
+                 191, 192, 193, 200, 255, 256, 257, 319, 320, 321, 511, 512, 513]
+
+
+def jh_split(rng, n):
+    """split n bytes into update pieces (boundaries around the 64-byte block size)"""
+    k = rng.below(6)
+    if k == 0 or n == 0:
+        return [n]
+    if k == 1:
+        a = rng.below(n + 1)
+        return [a, n - a]
+    if k == 2:   # byte by byte up to a point, then the rest
+        a = min(n, 1 + rng.below(70))
+        return [1] * a + ([n - a] if n > a else [])
+    if k == 3:   # pieces of 63/64/65
+        out = []
+        left = n
+        while left > 0:
+            c = min(left, rng.choice([63, 64, 65, 1, 128, 7]))
+            out.append(c)
+            left -= c
+        return out
+    if k == 4:   # an empty update in the middle
+        a = rng.below(n + 1)
+        return [a, 0, n - a]
+    out = []
+    left = n
+    while left > 0:
+        c = min(left, 1 + rng.below(150))
+        out.append(c)
+        left -= c
+    return out
+
+
+def gen_C06(rng, tier, cfg):
+    backends = backends_for(cfg, tier)
+    ops = []
+    stats = {"sizes": {}, "lengths": {}, "f8": 0, "specf8": 0, "spechash": 0, "splits": 0,
+             "counter_injections": 0, "backends": list(backends)}
+    if tier == "quick":
+        lens = list(JH_LENS_QUICK)
+    else:
+        lens = list(range(0, 201)) + [k * 64 + d for k in range(4, 17) for d in (-1, 0, 1)] + [1000, 1023, 1024, 1025, 4096, 4097]
+    slot = 0
+    nf8 = 6 if tier == "quick" else 40
+    for bi, be in enumerate(backends):
+        ops.append("cfg backend %s" % be)
+        # --- compression function component: f8_impl::<M> on (state, block)
+        for t in range(nf8):
+            st = struct_bytes(rng, 128)
+            blk = struct_bytes(rng, 64)
+            ops.append("jh f8 %s %s" % (hx(st), hx(blk)))
+            stats["f8"] += 1
+        ops.append("jh f8 %s %s" % ("00" * 128, "00" * 64))
+        ops.append("jh f8 %s %s" % ("ff" * 128, "ff" * 64))
+        stats["f8"] += 2
+        # --- hashers: one-shot and split updates
+        for n in JH_SIZES:
+            use = lens if (tier != "quick" or bi == 0) else [rng.choice(lens) for _ in range(8)]
+            for ln in use:
+                slot = (slot + 1) % 8
+                ops.append("jh new %d %d" % (slot, n))
+                pieces = jh_split(rng, ln)
+                if len(pieces) > 1:
+                    stats["splits"] += 1
+                seed = rng.below(100000)
+                if ln <= 160 and rng.below(3) == 0:
+                    data = struct_bytes(rng, ln)
+                    off = 0
+                    for c in pieces:
+                        ops.append("jh update %d %s" % (slot, hx(data[off:off + c])))
+                        off += c
+                elif len(pieces) == 1:
+                    ops.append("jh updpat %d %d %d" % (slot, ln, seed))
+                else:
+                    for i, c in enumerate(pieces):
+                        ops.append("jh updpat %d %d %d" % (slot, c, seed + i))
+                k = rng.below(8)
+                if k == 0:
+                    ops.append("jh getctr %d" % slot)
+                    ops.append("jh getstate %d" % slot)
+                if k == 1:
+                    ops.append("jh clone %d %d" % (slot, 9))
+                    ops.append("jh updpat 9 %d %d" % (rng.below(130), seed + 77))
+                    ops.append("jh fin 9")
+                ops.append("jh fin %d" % slot)
+                if k == 2:
+                    # finalize does not disturb the instance; keep absorbing
+                    ops.append("jh updpat %d %d %d" % (slot, rng.below(130), seed + 99))
+                    ops.append("jh fin %d" % slot)
+                if k == 3:
+                    ops.append("jh finreset %d" % slot)
+                    ops.append("jh getctr %d" % slot)
+                    ops.append("jh updpat %d %d %d" % (slot, rng.below(130), seed + 5))
+                    ops.append("jh finreset %d" % slot)
+                if k == 4:
+                    ops.append("jh reset %d" % slot)
+                    ops.append("jh fin %d" % slot)
+                if k == 5:
+                    # dirty finalisation followed by more input (model of the dirty buffer state)
+                    ops.append("jh findirty %d" % slot)
+                    ops.append("jh getstate %d" % slot)
+                    ops.append("jh updpat %d %d %d" % (slot, rng.below(130), seed + 3))
+                    ops.append("jh fin %d" % slot)
+                stats["lengths"][ln] = stats["lengths"].get(ln, 0) + 1
+                stats["sizes"][n] = stats["sizes"].get(n, 0) + 1
+        # --- counter (JH part of C17): injected datalen, random tail, finalisation
+        ctrs = [2**29, 2**32 - 1, 2**32, 2**32 + 63, 2**61 - 200, 2**61 - 1, 2**61, 2**61 + 5, 2**63, 2**64 - 1, 2**64 - 64]
+        for n in (JH_SIZES if tier != "quick" else [rng.choice(JH_SIZES), 256]):
+            for c in ctrs:
+                slot = (slot + 1) % 8
+                ops.append("jh new %d %d" % (slot, n))
+                ops.append("jh updpat %d %d %d" % (slot, rng.below(100), rng.below(1000)))
+                ops.append("jh setctr %d %d" % (slot, c))
+                ops.append("jh updpat %d %d %d" % (slot, rng.choice([0, 1, 63, 64, 65, 100, 199]), rng.below(1000)))
+                ops.append("jh getctr %d" % slot)
+                ops.append("jh fin %d" % slot)
+                ops.append("jh finreset %d" % slot)
+                ops.append("jh getctr %d" % slot)
+                stats["counter_injections"] += 1
+    # --- Spec-side evaluation through the driver (`specf8`, `spechash`): the harness answers with the
+    #     real code, the driver with the *specification*, so these lines compare code and spec directly.
+    ops.append("cfg backend %s" % backends[0])
+    for t in range(4 if tier == "quick" else 24):
+        ops.append("jh specf8 %s %s" % (hx(struct_bytes(rng, 128)), hx(struct_bytes(rng, 64))))
+        stats["specf8"] += 1
+    for n in JH_SIZES:
+        for ln in ([0, 1, 63, 64, 65, 128, 150] if tier == "quick" else [0, 1, 55, 56, 63, 64, 65, 119, 120, 127, 128, 129, 191, 192, 193, 200]):
+            ops.append("jh spechash %d %s" % (n, hx(struct_bytes(rng, ln))))
+            stats["spechash"] += 1
+    return ops, stats
+
+
+GENS["C06"] = gen_C06
+# --------------------------------------------------------------------------- C07 (Grøstl)
+
+G_BITS = [224, 256, 384, 512]
+
+
+def g_block(bits):
+    return 64 if bits <= 256 else 128
+
+
+def g_feed(rng, ops, slot, n, stats, allow_hex=True):
+    """absorb n bytes into `slot` in one or several updates (hex for structured short data, pattern otherwise)"""
+    pieces = []
+    left = n
+    k = rng.below(4)
+    if k == 0 or n == 0:
+        pieces = [n]
+    else:
+        while left > 0:
+            c = rng.choice([1, 7, 8, 9, 55, 56, 63, 64, 65, 119, 120, 127, 128, 129, 200, left])
+            c = min(c, left)
+            if rng.below(6) == 0:
+                pieces.append(0)
+            pieces.append(c)
+            left -= c
+    for c in pieces:
+        if allow_hex and c <= 160 and rng.below(3) != 0:
+            ops.append("groestl update %d %s" % (slot, hx(struct_bytes(rng, c))))
+        else:
+            ops.append("groestl updpat %d %d %d" % (slot, c, rng.below(100000)))
+    stats["updates"] += len(pieces)
+
+
+def gen_C07(rng, tier, cfg):
+    ops = []
+    stats = {"lengths": {}, "updates": 0, "spec_ops": 0, "counter_cases": 0, "variants": list(G_BITS)}
+    base = [0, 1, 54, 55, 56, 57, 63, 64, 65, 119, 120, 121, 127, 128, 129]
+    for bits in G_BITS:
+        b = g_block(bits)
+        lens = set(base)
+        for k in (1, 2, 3):
+            for d in (9, 8, 7):
+                lens.add(k * b - d)
+        if tier == "thorough":
+            lens.update(range(0, 301))
+            lens.update([1000, 1023, 1024, 2048 - 9, 2048 - 8, 4096, 5000])
+            for _ in range(20):
+                lens.add(rng.below(3000))
+        else:
+            lens.update([300, 1000, 4096])
+            for _ in range(4):
+                lens.add(rng.below(1500))
+        slot = 0
+        ops.append("groestl new 0 %d" % bits)
+        for n in sorted(lens):
+            stats["lengths"][n] = stats["lengths"].get(n, 0) + 1
+            how = rng.below(5)
+            if how == 0:
+                # fresh object
+                ops.append("groestl new 0 %d" % bits)
+            elif how == 1:
+                ops.append("groestl reset 0")
+            # otherwise slot 0 was left reset by the previous finreset
+            g_feed(rng, ops, 0, n, stats)
+            k = rng.below(4)
+            if k == 0:
+                # clone, diverge, finalize both
+                ops.append("groestl clone 0 1")
+                g_feed(rng, ops, 1, rng.choice([0, 1, b - 9, b - 8, b, 77]), stats)
+                ops.append("groestl fin 1")
+                ops.append("groestl finreset 1")
+                ops.append("groestl fin 1")       # state after reset = empty message
+            ops.append("groestl getctr 0")
+            ops.append("groestl fin 0")
+            if k == 1:
+                # finalising a copy must not disturb the original
+                g_feed(rng, ops, 0, rng.choice([0, 3, b]), stats)
+                ops.append("groestl fin 0")
+            ops.append("groestl finreset 0")
+            ops.append("groestl getctr 0")
+        # specification vs real code, directly
+        slens = [0, 1, 3, b - 9, b - 8, b - 7, b - 1, b, b + 1, 2 * b - 9, 2 * b - 8, 2 * b, 2 * b + 1]
+        if tier == "thorough":
+            slens = sorted(set(slens + list(range(0, 2 * b + 2)) + [3 * b - 8, 300, 500]))
+        for n in slens:
+            ops.append("groestl spec %d %s" % (bits, hx(struct_bytes(rng, n))))
+            stats["spec_ops"] += 1
+        # block counter boundaries (hook-injected counter, then a tail and finalisation)
+        ctrs = [254, 255, 256, 65535, 65536, 2**32 - 1, 2**32, 2**63 - 1, 2**63, 2**64 - 3, 2**64 - 2, 2**64 - 1]
+        tails = [0, 1, b - 9, b - 8, b - 1, b, b + 1, 2 * b - 8, 2 * b, 3 * b + 5]
+        for c in ctrs:
+            ts = tails if (tier == "thorough" or c >= 2**64 - 3) else [rng.choice(tails) for _ in range(3)]
+            for t in ts:
+                ops.append("groestl new 2 %d" % bits)
+                pre = rng.choice([0, 0, 5, b - 8, b, b + 3])
+                g_feed(rng, ops, 2, pre, stats)
+                ops.append("groestl setctr 2 %d" % c)
+                ops.append("groestl updpat 2 %d %d" % (t, rng.below(1000)))
+                ops.append("groestl getctr 2")
+                ops.append("groestl fin 2")
+                ops.append("groestl clone 2 3")
+                ops.append("groestl finreset 3")
+                ops.append("groestl getctr 3")
+                # keep going on the original (also after a caught overflow panic)
+                ops.append("groestl updpat 2 %d %d" % (rng.choice([0, 1, b - 8, b]), rng.below(1000)))
+                ops.append("groestl getctr 2")
+                ops.append("groestl fin 2")
+                stats["counter_cases"] += 1
+    return ops, stats
+
+
+GENS.update({"C01": gen_C01, "C07": gen_C07})
